@@ -655,6 +655,11 @@ type vgen struct {
 	small bool
 	// op: the operation's name, the hint for values that have no member name of their own
 	op string
+	// edgeText: edge calls come in two kinds. "Wide" ones (value seed bit 1 clear) take numbers from the whole
+	// width of their type and instants from years 1 to 9999 but keep text and array lengths in the core domain:
+	// everything in them is something the property says must be delivered. The others also use delimiters,
+	// quotes, empty text and empty arrays, for which an error is as good as exact delivery.
+	edgeText bool
 }
 
 const alnum = "abcdefghijklmnopqrstuvwxyz0123456789"
@@ -662,7 +667,7 @@ const alnum = "abcdefghijklmnopqrstuvwxyz0123456789"
 var edgeTexts = []string{"a b", "x+y", "p%q", "u/v", "k=v", "q?r#s&t", "é✓ü", "100%", "a  b", "%41", "+", "~_-", "a,b", "a;b", "a.b", "a|b", "x,", ";id=y", "\"q\"", "a\\b", "{j}", "[l]", "<t>", "a:b", "a'b", "日本", "a\tb", ""}
 
 func (g *vgen) text() string {
-	if g.edge && !g.params && g.r.intn(3) == 0 {
+	if g.edgeText && !g.params && g.r.intn(3) == 0 {
 		return edgeTexts[g.r.intn(len(edgeTexts))]
 	}
 	n := 1 + g.r.intn(8)
@@ -861,7 +866,7 @@ func (g *vgen) value(t reflect.Type, depth int, hint string) reflect.Value {
 			return v
 		}
 		n := 1 + g.r.intn(3)
-		if g.edge && !g.params && g.r.intn(4) == 0 {
+		if g.edgeText && !g.params && g.r.intn(4) == 0 {
 			n = 0
 		}
 		s := reflect.MakeSlice(t, n, n)
@@ -891,7 +896,7 @@ func (g *vgen) value(t reflect.Type, depth int, hint string) reflect.Value {
 				return all.Index(g.r.intn(all.Len()))
 			}
 		}
-		if h, ok := g.hinted(hint); ok && !(g.edge && !g.params) {
+		if h, ok := g.hinted(hint); ok && !(g.edgeText && !g.params) {
 			v.SetString(h)
 			return v
 		}
@@ -952,10 +957,10 @@ func (g *vgen) value(t reflect.Type, depth int, hint string) reflect.Value {
 }
 
 func (g *vgen) textCore() string {
-	e := g.edge
-	g.edge = false
+	e := g.edgeText
+	g.edgeText = false
 	s := g.text()
-	g.edge = e
+	g.edgeText = e
 	return s
 }
 
@@ -1107,7 +1112,7 @@ func typedHandler(impls map[string][]reflect.Type) func(ctx context.Context, op 
 			return nil
 		}
 		c := si.Call.Rec.Call
-		g := &vgen{r: vrng{s: c.V ^ respSalt}, edge: c.Edge, impls: impls, small: c.V&1 == 0, op: op}
+		g := &vgen{r: vrng{s: c.V ^ respSalt}, edge: c.Edge, impls: impls, small: c.V&1 == 0, op: op, edgeText: c.Edge && c.V&2 != 0}
 		rv := reflect.ValueOf(res).Elem()
 		v, ok := g.response(rv.Type())
 		if !ok {
@@ -1207,7 +1212,7 @@ func doTyped(ctx context.Context, cls *typedClients, impls map[string][]reflect.
 		return
 	}
 	mt := m.Type()
-	g := &vgen{r: vrng{s: c.V}, edge: c.Edge, impls: impls, small: c.V&1 == 0, op: c.TOp}
+	g := &vgen{r: vrng{s: c.V}, edge: c.Edge, impls: impls, small: c.V&1 == 0, op: c.TOp, edgeText: c.Edge && c.V&2 != 0}
 	in := []reflect.Value{reflect.ValueOf(ctx)}
 	if first == 2 {
 		in = append(in, reflect.ValueOf(target))
